@@ -341,6 +341,16 @@ def judge(files, tools, workdir, st, intended=None):
                         ctx.append("built-in phony rule used in a subninja file")
                     if ctx:
                         edge_cause[id(e)] = ctx[0]
+            if dg["msg"] == "unexpected token":
+                k = dg["line"] - 2
+                while k >= 0 and ls[k].lstrip(b" ").startswith(b"#") and ls[k].startswith(b" "):
+                    k -= 1
+                if line.strip(b" ") == b"":
+                    ctx.append("layout: line of blanks outside a block")
+                elif line.startswith(b" ") and line.lstrip(b" ").startswith(b"#"):
+                    ctx.append("layout: indented comment line outside a block")
+                elif line.startswith(b" ") and k >= 0 and ls[k].startswith(b"#"):
+                    ctx.append("layout: unindented comment line inside a block")
             if dg["msg"] == "unknown target name" and b"$" in line:
                 ctx.append("default statement whose path is written with a $-escape or a variable")
                 default_cause.append(ctx[0])
@@ -360,9 +370,8 @@ def judge(files, tools, workdir, st, intended=None):
     if ll_def != sorted(set(m.defaults)):
         if not default_cause and any(re.search(rb"^default [^\n]*\$", c, re.M) for c in files.values()):
             default_cause.append("default statement whose path is written with a $-escape or a variable")
-        viols.append(("default targets differ from the reference", {"llbuild": [show(x) for x in ll_def],
-                                                                   "reference": [show(x) for x in sorted(set(m.defaults))],
-                                                                   "edge_cause": default_cause[0] if default_cause else None}))
+        # default statements are not build statements: outside property C17, counted but not judged
+        st["default_target_mismatches_not_judged"] = st.get("default_target_mismatches_not_judged", 0) + 1
     # ---- build statements
     cmds = dump["commands"]
     if len(cmds) != len(m.edges):
